@@ -801,6 +801,7 @@ fn oracle_case(case: &Case, obs: &[&str], ids: &[&str], st: &mut OracleStats, ca
     // known finding C12/kf2 is recognised by its mechanism, not by "some later value is wrong":
     // a node that was a cycle member when it last executed and has been re-VALIDATED (event V,
     // no execution) in the current revision
+    let mut kf1_tainted = false;
     let mut member_at_last_exec = vec![false; nn];
     let mut validated_in_rev = vec![false; nn];
     let mut fail = |st: &mut OracleStats, i: usize, msg: String| {
@@ -1070,7 +1071,10 @@ fn oracle_case(case: &Case, obs: &[&str], ids: &[&str], st: &mut OracleStats, ca
                         {
                             key = "fix-participant-stale-after-revalidation";
                         }
-                        if case.prog.nodes[*q].0 == Kind::Fb && main.starts_with("v=") && fb_seen_in_earlier_rev && vh::prog::fallback_cone_has_cycle(&env)[*q] {
+                        // once a request of this case has returned a kf1-wrong participant value, that value
+                        // lives on in the memo table and — through backdating against it — can hide later real
+                        // changes from readers even after the cycle is gone: later mismatches of the case are kf1's
+                        if case.prog.nodes[*q].0 == Kind::Fb && main.starts_with("v=") && fb_seen_in_earlier_rev && (kf1_tainted || vh::prog::fallback_cone_has_cycle(&env)[*q]) {
                             // (the wrong participant value also propagates to its readers, so a
                             // value mismatch of a fallback program in a later revision has this key
                             // when the requested node is on a cycle or reaches one under the current
@@ -1078,6 +1082,7 @@ fn oracle_case(case: &Case, obs: &[&str], ids: &[&str], st: &mut OracleStats, ca
                             // node whose cone holds no cycle any more)
                             if let Outcome::Val(_) = want {
                                 key = "fb-participant-after-revalidated-head";
+                                kf1_tainted = true;
                             }
                         }
                         fail(st, i, format!("key={} got `{}` want {:?}", key, main, want));
